@@ -810,7 +810,9 @@ func genTx(r *lib.Rng, c cfg, a *arbiters, pool int) *txd {
 	for k := r.PickI64(0, 0, 1, 1, 1, 2); k > 0; k-- {
 		switch r.Intn(9) {
 		case 0:
-			t.refs[r.Intn(len(t.refs))] = byte(r.PickU64(0x21, 0x12, 0x1f, 0x67, 0))
+			if len(t.refs) > 0 {
+				t.refs[r.Intn(len(t.refs))] = byte(r.PickU64(0x21, 0x12, 0x1f, 0x67, 0))
+			}
 		case 1:
 			t.refs = append(t.refs, byte(r.PickU64(0x21, 0x4b)))
 		case 2:
